@@ -3,21 +3,25 @@ EXTENDS Lock, Json
 CONSTANT MaxTotal   \* bound on the total number of API calls for the edge export (CONSTRAINT Cap)
 \* Model-checking harness for Lock: edge export for the replay driver.
 
-StateRec(q, qm, pcs, ks, cr, rd, cn, st, ni, cl) ==
+StateRec(q, qm, pcs, ks, cr, rd, cn, st, ni, cl, wds) ==
   [queue |-> [k \in Keys |-> [i \in DOMAIN q[k] |-> q[k][i].id]],
    owners |-> [k \in Keys |-> [i \in DOMAIN q[k] |-> q[k][i].owner]],
    qmap |-> qm, pc |-> pcs, key |-> ks, cur |-> cr, ready |-> rd, cancelled |-> cn, stale |-> st,
-   nextId |-> ni, calls |-> cl]
+   nextId |-> ni, calls |-> cl, wd |-> wds]
 
 \* every explored transition as one JSON line (run with -workers 1)
 ExportEdge ==
-  PrintT(ToJson([from |-> StateRec(queue, qmap, pc, key, cur, ready, cancelled, stale, nextId, calls),
+  PrintT(ToJson([from |-> StateRec(queue, qmap, pc, key, cur, ready, cancelled, stale, nextId, calls, wd),
                  act |-> last',
-                 to |-> StateRec(queue', qmap', pc', key', cur', ready', cancelled', stale', nextId', calls')]))
+                 to |-> StateRec(queue', qmap', pc', key', cur', ready', cancelled', stale', nextId', calls', wd')]))
 
 \* bound for the edge export (total API calls)
 TotalCalls == LET S[P \in SUBSET Procs] == IF P = {} THEN 0 ELSE LET p == CHOOSE x \in P : TRUE IN calls[p] + S[P \ {p}] IN S[Procs]
 Cap == TotalCalls <= MaxTotal
+
+\* partial-order reduction by hand: WdExit touches only `wd`, which no other action reads, so it commutes with every
+\* other step; let it happen as soon as it is enabled (without this the exhaustive runs are four times larger)
+EagerWdExit == (\E id \in wd : id \notin Queued) => last'.a = "WdExit"
 
 \* symmetry reduction for the export (the replayed paths lose nothing but renamings): processes make their
 \* first call in the order p1, p2, ..., and the very first Lock is on k1
